@@ -1,6 +1,6 @@
 //! Derive two modules from the CURRENT /repo/src/bin/mstsc-rs.rs (see DESIGN §2.6):
 //!  * mstsc_plain.rs   — the file verbatim + a child module exporting the private functions
-//!  * mstsc_shuttle.rs — the same with exactly six import lines rewritten to shuttle / the fake descriptor
+//!  * mstsc_shuttle.rs — the same with every std::thread / std::sync:: / libc:: path rewritten to shuttle / the fake descriptor
 //! If an anchor line is missing the build fails: the check then exits 2 (machinery), it never guesses.
 use std::fs;
 use std::path::Path;
@@ -27,25 +27,22 @@ pub mod verif_export {
     // rewrite the imports of the synchronisation primitives and of the descriptor API by prefix, whatever the
     // imported item list is (a change may add e.g. `timeval` or `Condvar`): std::thread -> shuttle::thread,
     // std::sync -> shuttle::sync, libc -> the modelled descriptor
-    let rules = [("use std::thread", "use shuttle::thread"), ("use std::sync::", "use shuttle::sync::"), ("use libc::{", "use crate::fake_fd::{")];
-    let mut s = String::new();
-    let mut hits = [0usize; 3];
-    for line in src.lines() {
-        let t = line.trim_start();
-        let mut out = line.to_string();
-        for (k, (from, to)) in rules.iter().enumerate() {
-            if t.starts_with(from) {
-                out = line.replacen(from, to, 1);
-                hits[k] += 1;
-            }
-        }
-        s.push_str(&out);
-        s.push('\n');
+    // every path through std::thread / std::sync / libc, in `use` lines or written out in the code
+    let rules = [("std::thread", "shuttle::thread"), ("std::sync::", "shuttle::sync::"), ("libc::", "crate::fake_fd::")];
+    let mut s = src.clone();
+    for (from, to) in rules.iter() {
+        s = s.replace(from, to);
     }
-    for (k, (from, _)) in rules.iter().enumerate() {
-        if hits[k] == 0 {
-            panic!("VERIF-ANCHOR: no import line starting with `{}` in mstsc-rs.rs", from);
-        }
+    // grouped imports (`use std::{thread, sync::{..}}`) are not rewritten by the rules above: refuse to guess
+    let grouped = src.lines().any(|l| {
+        let t = l.trim_start();
+        t.starts_with("use std::{") && (t.contains("thread") || t.contains("sync"))
+    });
+    if grouped || !s.contains("shuttle::thread") || !s.contains("shuttle::sync::") {
+        panic!("VERIF-ANCHOR: mstsc-rs.rs reaches std::thread / std::sync in a way the derived module does not rewrite (grouped import, or no use of them at all)");
+    }
+    if !s.contains("crate::fake_fd::") {
+        panic!("VERIF-ANCHOR: mstsc-rs.rs no longer goes through libc for its descriptor wait");
     }
     let export_shuttle = r#"
 
